@@ -1332,7 +1332,35 @@ class Evaluator:
                 return
             self.ev(st.value)
             return
-        if isinstance(st, (ast.Pass, ast.Assert)):
+        if isinstance(st, (ast.Pass, ast.Assert, ast.Global, ast.Nonlocal)):
+            return
+        if isinstance(st, ast.AnnAssign):
+            # `x: T = v` is `x = v`; a bare annotation binds nothing
+            if st.value is None:
+                return
+            one = ast.Assign(targets=[st.target], value=st.value)
+            ast.copy_location(one, st)
+            ast.fix_missing_locations(one)
+            return self.stmt(one)
+        if isinstance(st, (ast.Import, ast.ImportFrom)):
+            # a function-level import of something the module namespace can
+            # already resolve (re, json, gfapy, ...) binds the same entity
+            for al in st.names:
+                local = al.asname or al.name.split(".")[0]
+                if isinstance(st, ast.Import) and al.asname:
+                    probe = ast.parse(al.name, mode="eval").body
+                else:
+                    probe = ast.Name(id=al.name.split(".")[0] if isinstance(
+                        st, ast.Import) else al.name, ctx=ast.Load())
+                try:
+                    ent = self.ev(probe)
+                except Unsupported:
+                    if isinstance(st, ast.Import):
+                        ent = External(al.name if al.asname else
+                                       al.name.split(".")[0])
+                    else:
+                        ent = External("%s.%s" % (st.module, al.name))
+                self.env[local] = ent
             return
         if isinstance(st, ast.FunctionDef):
             self.env[st.name] = Closure(st, self)
